@@ -146,5 +146,19 @@ def main():
         with cf.ThreadPoolExecutor(jobs) as ex:
             for sid, res in ex.map(one, sids):
                 print(sid, {p: ("ALARM" if r["exit"] == 1 else "quiet" if r["exit"] == 0 else "exit%d" % r["exit"]) for p, r in res.items()} if "error" not in res else res, flush=True)
+    elif a[0] == "index":
+        # one-line-per-seed summary of what is stored under seeded/
+        idx = []
+        for sid in sorted(os.listdir(os.path.join(VERIF, "seeded"))):
+            dst = os.path.join(VERIF, "seeded", sid)
+            if not os.path.isdir(dst): continue
+            m = json.load(open(os.path.join(dst, "meta.json")))
+            q = m.get("check_results", {}).get("quick", {})
+            now = {p: ("ALARM" if r.get("exit") == 1 else "quiet" if r.get("exit") == 0 else "exit%s" % r.get("exit")) for p, r in q.items()} if "error" not in q else q
+            rnd = m.get("round") or (3 if "-r3" in sid else 2 if "-r2" in sid else 1)
+            idx.append({"id": sid, "round": rnd, "property": m.get("breaks_property"), "needs": (m.get("needs") or "")[:300], "first_run": m.get("first_run"), "now": now})
+        json.dump(idx, open(os.path.join(VERIF, "seeded", "INDEX.json"), "w"), indent=1)
+        caught = sum(1 for e in idx if isinstance(e["now"], dict) and "ALARM" in e["now"].values())
+        print("%d seeds indexed, %d currently raise an alarm in at least one check" % (len(idx), caught))
 
 main()
